@@ -660,6 +660,7 @@ namespace bloch::compiler {
             std::unique_ptr<VariableDeclaration> extraVar = std::make_unique<VariableDeclaration>();
             extraVar->isFinal = isFinal;
             extraVar->annotations = cloneAnnotations(var->annotations);
+            extraVar->isTracked = var->isTracked;
             extraVar->varType = cloneType(*var->varType);
             extraVar->name = extraToken.value;
             extraVar->line = extraToken.line;
